@@ -49,7 +49,7 @@ abbrev BufId := Nat
 abbrev SlotPath := List Nat
 
 inductive Store
-  | meta | map | bytes
+  | hdr | map | bytes
   deriving DecidableEq, Repr
 
 inductive Loc
@@ -180,7 +180,7 @@ def fpFind (d : DocId) (p : SlotPath) (key : Key) (mt : Option ObjMeta) (ms : Li
     match mt with
     | none => []
     | some m =>
-      rd (.docStorage d p .meta) ::
+      rd (.docStorage d p .hdr) ::
         match m.map with
         | some _ => rd (.docStorage d p .map) :: fpNameBytes d p ms.length
         | none => fpScan d p key ms 0
@@ -188,7 +188,7 @@ def fpFind (d : DocId) (p : SlotPath) (key : Key) (mt : Option ObjMeta) (ms : Li
 /-- the `MetaNode` / map reads of a container (only counted by the `full` walk) -/
 def fpMetaObj (d : DocId) (p : SlotPath) : Option ObjMeta → List Access
   | none => []
-  | some m => rd (.docStorage d p .meta) :: (if m.map.isSome then [rd (.docStorage d p .map)] else [])
+  | some m => rd (.docStorage d p .hdr) :: (if m.map.isSome then [rd (.docStorage d p .map)] else [])
 
 mutual
 /-- every node below (and including) `p`, with the characters of every string; `full` also reads every
@@ -196,7 +196,7 @@ mutual
 def fpWalk (d : DocId) (full : Bool) : SlotPath → Node → List Access
   | p, .str _ _ => [rd (.docNode d p), rd (.docStorage d p .bytes)]
   | p, .arr c es =>
-    rd (.docNode d p) :: ((if full && c.isSome then [rd (.docStorage d p .meta)] else []) ++
+    rd (.docNode d p) :: ((if full && c.isSome then [rd (.docStorage d p .hdr)] else []) ++
       fpWalkList d full p 0 es)
   | p, .obj mt ms =>
     rd (.docNode d p) :: ((if full then fpMetaObj d p mt else []) ++ fpWalkMems d full p 0 ms)
@@ -246,8 +246,8 @@ def footprintIn (staticIsNull : Bool) (op : ReadOp) (d : Doc) (t : ThreadId) : L
   | .size p => match nodeAt d.root p with | some _ => [rd (.docNode d.id p)] | none => []
   | .capacity p =>
     match nodeAt d.root p with
-    | some (.arr (some _) _) => [rd (.docNode d.id p), rd (.docStorage d.id p .meta)]
-    | some (.obj (some _) _) => [rd (.docNode d.id p), rd (.docStorage d.id p .meta)]
+    | some (.arr (some _) _) => [rd (.docNode d.id p), rd (.docStorage d.id p .hdr)]
+    | some (.obj (some _) _) => [rd (.docNode d.id p), rd (.docStorage d.id p .hdr)]
     | some _ => [rd (.docNode d.id p)]
     | none => []
   | .iterate p => match nodeAt d.root p with | some n => fpWalk d.id false p n | none => []
@@ -315,6 +315,10 @@ def roStep (d : Doc) (s : RoState) (t : ThreadId) : RoState × List Event :=
 def roTrace (d : Doc) : RoState → List ThreadId → List Event
   | _, [] => []
   | s, t :: sched => (roStep d s t).2 ++ roTrace d (roStep d s t).1 sched
+
+/-- the state after a schedule -/
+def roRun (d : Doc) (s : RoState) (sched : List ThreadId) : RoState :=
+  sched.foldl (fun s t => (roStep d s t).1) s
 
 /-! ## scenario 2: every thread works on its own document, allocator and buffer -/
 
